@@ -36,13 +36,14 @@ SPACE = dict({'graph': ['P2', 'P3', 'TRI'], 'chain': CHAINS, 'chain_rev': ['F80'
               'rounds': [2, 1, 3],
               # ROADM settings given by the operator: node-level equalisation policy, per-degree targets of each kind (on
               # every degree that starts with an operator-placed amplifier), amplifier restrictions
-              'roadm': ['plain', 'node_psd', 'node_psw', 'deg_pch', 'deg_psd', 'deg_psw', 'restrict']}, **tg.SPAN_SPACE)
+              'roadm': ['plain', 'node_psd', 'node_psw', 'deg_pch', 'deg_psd', 'deg_psw', 'restrict', 'node_psd+deg_psw', 'node_psw+deg_pch',
+                        'node_psd+deg_pch']}, **tg.SPAN_SPACE)
 E_FIRST = ('Efull_F100_Efull', 'Etype_F100_Egain', 'Evoa_F90_Edp', 'Evoa_F100', 'Evoa_F70_F70')
 
 
 def space_ok(x):
     # a per-degree target needs a degree that exists in the input document (an operator-placed first amplifier)
-    return tg.consistent(x) and (not x['roadm'].startswith('deg') or x['chain'] in E_FIRST or x['chain_rev'] in E_FIRST)
+    return tg.consistent(x) and ('deg' not in x['roadm'] or x['chain'] in E_FIRST or x['chain_rev'] in E_FIRST)
 
 
 def chain(kind):
@@ -74,7 +75,15 @@ def roadm_settings(kind, sites, ls):
         degs = [f'{x}>{y}:0:Edfa' for a, b, fwd, rev in ls for x, y, ch in ((a, b, fwd), (b, a, rev))
                 if x == s and ch and ch[0]['type'] == 'Edfa']
         p = {}
-        if kind == 'node_psd':
+        if '+' in kind:
+            # node-level policy of one kind and a per-degree target of another kind on the degrees the document names
+            nk, dk = kind.split('+')
+            p = {'node_psd': {'target_psd_out_mWperGHz': 2.5e-4}, 'node_psw': {'target_out_mWperSlotWidth': 1.6e-4}}[nk]
+            if degs:
+                key, val = {'deg_pch': ('per_degree_pch_out_db', -18.5), 'deg_psd': ('per_degree_psd_out_mWperGHz', 2.0e-4),
+                            'deg_psw': ('per_degree_psd_out_mWperSlotWidth', 1.3e-4)}[dk]
+                p = dict(p, **{key: {d: val for d in degs}})
+        elif kind == 'node_psd':
             p = {'target_psd_out_mWperGHz': 2.5e-4}
         elif kind == 'node_psw':
             p = {'target_out_mWperSlotWidth': 1.6e-4}
@@ -374,7 +383,8 @@ def run_case(case):
 def main(rep, tier, seed):
     sp = engine.Space(SPACE, bases=[{}, {'graph': 'P3', 'chain': 'R80_E', 'sim': 'raman_p2', 'eq': 'example', 'EOL': 1.5},
                                     {'chain': 'F1000', 'max_length': 90, 'mode': 'gain', 'voa_auto': 1},
-                                    {'graph': 'P3', 'chain': 'Etype_F100_Egain', 'chain_rev': 'Evoa_F90_Edp', 'roadm': 'deg_psw'}],
+                                    {'graph': 'P3', 'chain': 'Etype_F100_Egain', 'chain_rev': 'Evoa_F90_Edp', 'roadm': 'deg_psw'},
+                                    {'graph': 'TRI', 'chain': 'Evoa_F100', 'roadm': 'node_psd+deg_psw'}],
                       constraint=space_ok)
     d = 2 if tier == 'quick' else 3
     bases = engine.pick_bases(sp.bases, seed, tier, n_quick=2)
